@@ -43,16 +43,16 @@ Flag(cond, name) == IF cond THEN {} ELSE {name}
 
 TInit == /\ l = 1 /\ tokT = <<>> /\ tokR = <<>> /\ sparts = <<>> /\ explicit = FALSE
          /\ sidOf = [i \in Inst |-> -1] /\ bad = {}
-         /\ InitFor([startup |-> <<>>, t |-> 0, a |-> 0, per |-> FALSE, discard |-> FALSE])
+         /\ InitFor([startup |-> <<>>, t |-> 0, tmin |-> 0, a |-> 0, per |-> FALSE, discard |-> FALSE])
 
 \* a new run: Pool's Init for the logged configuration
 T_Conf ==
   /\ Ev.ev = "conf"
   /\ Ev.n <= MaxInst
-  /\ cfg' = [startup |-> [k \in 1..Ev.n |-> 0], t |-> Ev.t, a |-> Ev.a, per |-> Ev.per, discard |-> Ev.discard]
+  /\ cfg' = [startup |-> [k \in 1..Ev.n |-> 0], t |-> Ev.t, tmin |-> Ev.tmin, a |-> Ev.a, per |-> Ev.per, discard |-> Ev.discard]
   /\ now' = 0
   /\ given' = 0 /\ rel' = <<>> /\ prov' = "run" /\ agg' = "run"
-  /\ drawn' = [s \in 0..MaxInst |-> 0]
+  /\ drawn' = [s \in 0..MaxInst |-> 0] /\ closed' = [s \in 0..MaxInst |-> FALSE]
   /\ spc' = "draw" /\ sk' = 0 /\ created' = 0 /\ ids' = <<>>
   /\ startCancelled' = FALSE /\ runCancelled' = FALSE
   /\ ipc' = [i \in Inst |-> "none"] /\ held' = [i \in Inst |-> 0] /\ tok' = [i \in Inst |-> FALSE]
@@ -82,7 +82,7 @@ T_SNext ==
           /\ UNCHANGED <<tokT, tokR>>
           \* the tokens handed out are the startup profile's (ProfileMath, shared with C01)
           /\ bad' = bad \cup Flag(~explicit \/ PartsOK(sparts, 1, tokR, 1, <<>>, Sd), "StartupProfileInstants")
-  /\ UNCHANGED <<cfg, now, provVars, drawn, created, ids, ctxVars, instVars, cntVars, awVars, ghostVars,
+  /\ UNCHANGED <<cfg, now, provVars, schedVars, created, ids, ctxVars, instVars, cntVars, awVars, ghostVars,
                  sparts, explicit, sidOf>>
 
 \* gun factory + Bind: instance Ev.inst exists from now on (S_Create and I_New of Pool; the `go`
@@ -96,7 +96,7 @@ T_Bind ==
   /\ instStart' = instStart + 1
   /\ bad' = bad \cup Flag(I <= sk, "CreatedWithoutToken")            \* id k is made from token k
                 \cup Flag(I > Len(tokT) \/ Geq(Ev.t, tokT[I]), "CreatedBeforeTokenInstant")
-  /\ UNCHANGED <<cfg, now, provVars, drawn, spc, sk, ctxVars, held, tok, why,
+  /\ UNCHANGED <<cfg, now, provVars, schedVars, spc, sk, ctxVars, held, tok, why,
                  request, response, instFinish, fired, discarded, awVars, ghostVars,
                  tokT, tokR, sparts, explicit, sidOf>>
 
@@ -106,8 +106,8 @@ SidOK == /\ IF cfg.per THEN Ev.sid >= 1 ELSE Ev.sid = 0
 SidSet == sidOf' = [sidOf EXCEPT ![I] = Ev.sid]
 
 T_Left == /\ Ev.ev = "left" /\ Running /\ IsInst
-          /\ I_Check(I)
-          /\ Ev.n = LeftOf(Sid(I))
+          /\ I_CheckZ(I, Ev.n = 0)
+          /\ Unknown \/ Ev.n = LeftOf(Sid(I))       \* known length: the exact number of tokens left
           /\ SidOK /\ SidSet
           /\ UNCHANGED <<tokT, tokR, sparts, explicit, bad>>
 
@@ -117,8 +117,7 @@ T_Acq == /\ Ev.ev = "acq" /\ Running /\ IsInst
          /\ UNCHANGED <<tokT, tokR, sparts, explicit, sidOf, bad>>
 
 T_Next == /\ Ev.ev = "next" /\ Running /\ IsInst
-          /\ I_Wait(I)
-          /\ tok'[I] = Ev.ok
+          /\ I_WaitOk(I, Ev.ok)
           /\ SidOK /\ SidSet
           /\ UNCHANGED <<tokT, tokR, sparts, explicit, bad>>
 
@@ -161,7 +160,7 @@ T_End ==
   /\ bad' = bad \cup Flag(Ev.err = "", "RunReturnedError")
                 \cup Flag(Ev.request = request /\ Ev.response = response, "MetricsRequestResponse")
                 \cup Flag(Ev.inst_start = instStart /\ Ev.inst_finish = instFinish, "MetricsInstances")
-  /\ UNCHANGED <<cfg, now, provVars, drawn, startVars, ctxVars, instVars, cntVars,
+  /\ UNCHANGED <<cfg, now, provVars, schedVars, startVars, ctxVars, instVars, cntVars,
                  runRes, provCh, aggCh, startCh, aw, ghostVars, tokT, tokR, sparts, explicit, sidOf>>
 
 TNext == /\ l <= Len(Trace)
